@@ -5,7 +5,7 @@ import json, os, re, subprocess, sys, tempfile, shutil
 sys.path.insert(0, '/verif')
 from sa.selftest import make_copy, apply_patch, run_check_on
 COMMITS = {"F01": "45f7ced", "F02": "71c8423", "F03": "501579e", "F04": "8cd656b", "F05": "6744204", "F12": "7fe9cd7", "F06": "eac50b9",
-           "F07": "f3cfa8f", "F09": "883c243", "F10": "b4db419", "F11": "2736fd0", "F08": "8b067d4", "F13": "fd0eade", "F14": "8cb63e4", "F15": "56fa359", "F16": "4db446e", "F17": "d137386", "F18": "7cd4440", "F19": "a0a4156", "F20": "cace091", "F21": "a0ca684", "F22": "98dbfbd", "F23": "b1d2ece", "F24": "e757111", "F25": "9942db1", "F26": "098ceeb", "F27": "b874d99", "F28": "bc68000", "F29": "289d984", "F30": "cd368bd", "F31": "25cecac", "F32": "237a4e3", "F33": "5ad8fc3", "F34": "3a3ef5d", "F35": "b0b7768", "F36": "db1c409", "F37": "a1eebb7", "F38": "2bdaf28", "F39": "a716fbd", "F40": "5cd26f5", "F41": "a04b428", "F42": "ff958c7", "F43": "1b90408", "F44": "213b367"}
+           "F07": "f3cfa8f", "F09": "883c243", "F10": "b4db419", "F11": "2736fd0", "F08": "8b067d4", "F13": "fd0eade", "F14": "8cb63e4", "F15": "56fa359", "F16": "4db446e", "F17": "d137386", "F18": "7cd4440", "F19": "a0a4156", "F20": "cace091", "F21": "a0ca684", "F22": "98dbfbd", "F23": "b1d2ece", "F24": "e757111", "F25": "9942db1", "F26": "098ceeb", "F27": "b874d99", "F28": "bc68000", "F29": "289d984", "F30": "cd368bd", "F31": "25cecac", "F32": "237a4e3", "F33": "5ad8fc3", "F34": "3a3ef5d", "F35": "b0b7768", "F36": "db1c409", "F37": "a1eebb7", "F38": "2bdaf28", "F39": "a716fbd", "F40": "5cd26f5", "F41": "a04b428", "F42": "ff958c7", "F43": "1b90408", "F44": "213b367", "F45": "597a52a", "F46": "56334d4", "F47": "dfaebdf", "F48": "7b3fc46", "F49": "6b4021f"}
 out = []
 for d in sorted(os.listdir('/verif/seeded')):
     if not d.endswith('-revert'):
